@@ -56,8 +56,14 @@ func genC11(t *rapid.T) c11Case {
 		} else {
 			c.OwnPkg = pkgs[rapid.IntRange(0, len(pkgs)-1).Draw(t, "ownpkg")]
 			// beta/v1 imports alpha: a type that mentions beta cannot be written inside package alpha (import cycle)
-			if c.OwnPkg == "alpha" && seen["beta"] {
-				c.OwnPkg = "beta"
+			if !ownTargetPossible(c.OwnPkg, func(p string) bool { return seen[p] }) {
+				// the importing package is always a possible target
+				for _, p := range []string{"delta", "beta"} {
+					if seen[p] {
+						c.OwnPkg = p
+						break
+					}
+				}
 			}
 		}
 	}
